@@ -137,7 +137,8 @@ Proof.
       replace (a <? d)%nat with true by (symmetry; apply Nat.ltb_lt; auto).
       replace (c <? d)%nat with true by (symmetry; apply Nat.ltb_lt; auto). reflexivity.
     - apply csumn_0. }
-  rewrite P0, PD. rewrite <- cadd_assoc. rewrite <- (cadd_assoc (if (Nat.eqb a b && Nat.eqb c e)%bool then (1 / INR d, 0) else 0c)).
+  rewrite P0, PD.
+  match goal with |- cadd' (cadd' (cadd' ?x ?s) ?t) ?dd = _ => rewrite <- (cadd_assoc x s t) end.
   rewrite PSA. unfold delta.
   destruct (Nat.eqb_spec a b); destruct (Nat.eqb_spec c e); simpl andb; cbv iota.
   - subst b e. destruct (Nat.eqb a c); apply c_eq; csimp; ring.
